@@ -196,6 +196,8 @@ impl Cw20 {
         let t = rng.range(1_500_000_000, 1_900_000_000);
         let mut w = World::new(h, t);
         // block times are rarely whole seconds
+        let (fb, fs) = rng.far_future();
+        w.advance(fb, fs);
         w.block.time = w.block.time.plus_nanos(rng.below(1_000_000_000));
         Cw20 { w }
     }
